@@ -30,7 +30,21 @@ func (fr *Frame) addrTakenLocals(h *ssa.BasicBlock, out map[string]func(*State) 
 		}
 		for _, in := range b.Instrs {
 			a, ok := in.(*ssa.Alloc)
-			if !ok || a.Comment == "" || isParam[a.Comment] {
+			if !ok || a.Comment == "" {
+				continue
+			}
+			if isParam[a.Comment] {
+				// an address-taken PARAMETER (`snap[:]`): `snap` stays the entry value, `cur_snap` is the current content of
+				// its cell (same naming as captured parameters, ext_kviter.go)
+				if sv, known := fr.vals[a]; known {
+					if pt, ok := a.Type().Underlying().(*types.Pointer); ok {
+						name, addr, et := "cur_"+a.Comment, sv.t, pt.Elem()
+						if _, dup := out[name]; !dup {
+							addrs[name] = SV{t: addr, typ: et}
+							out[name] = func(st *State) SV { return SV{t: fc.load(st, addr, et), typ: et} }
+						}
+					}
+				}
 				continue
 			}
 			found[a.Comment] = append(found[a.Comment], a)
